@@ -373,6 +373,9 @@ def shard_hyp(args):
         _k, text = draw(gen.message(state, ro['ro_id'], faults='none', rich=True))
         if draw(st.integers(0, 3)) == 0:
             text = B.cdataize(text, every=draw(st.integers(1, 2)))      # IDs / slugs in CDATA sections
+        if draw(st.integers(0, 4)) == 0:
+            # a str that still carries the declaration of the encoding it was decoded from
+            text = '<?xml version="1.0" encoding="%s"?>' % draw(st.sampled_from(['ISO-8859-1', 'UTF-16', 'windows-1252'])) + text
         return {'msg_xml': text}
 
     def one(case):
